@@ -3,10 +3,13 @@ package c01
 import (
 	"fmt"
 	"net/url"
+	"os"
+	"path/filepath"
 	"runtime"
 	"strings"
 	"time"
 
+	"github.com/magisterquis/curlrevshell/internal/hsrv"
 	"github.com/magisterquis/curlrevshell/verifharness/mon"
 	"github.com/magisterquis/curlrevshell/verifharness/mon/bk"
 	"github.com/magisterquis/curlrevshell/verifharness/mon/crs"
@@ -47,13 +50,19 @@ func httpMapping(r *mon.Run) {
 	}
 	nsrv := 8
 	mon.Parallel(nsrv, runtime.NumCPU(), func(si int) {
-		s, err := hk.Start(hk.Config{})
+		cfg, cfgName, err := httpConfig(r, si)
+		if err != nil {
+			r.Inconclusive("fixtures: " + err.Error())
+			return
+		}
+		s, err := hk.Start(cfg)
 		if err != nil {
 			r.Inconclusive("server: " + err.Error())
 			return
 		}
 		defer s.Stop()
-		for pi := si; pi < len(pairs); pi += nsrv {
+		nviol := 0
+		for pi := si; pi < len(pairs) && nviol < 3; pi += nsrv {
 			if !r.Want("http", pi) {
 				continue
 			}
@@ -62,7 +71,8 @@ func httpMapping(r *mon.Run) {
 			rawB, idB := pathIDs[p.b][0], pathIDs[p.b][1]
 			outFirst := pi%2 == 1
 			viol := func(key, what string) {
-				r.Violate("http", pi, key, what, map[string]any{"first": rawA, "second": rawB, "out_first": outFirst, "log_tail": s.Log.Tail(25)})
+				nviol++
+				r.Violate("http", pi, key, what+" [server configuration: "+cfgName+"]", map[string]any{"configuration": cfgName, "first": rawA, "second": rawB, "out_first": outFirst, "log_tail": s.Log.Tail(25)})
 			}
 			from, _ := s.Mark(fmt.Sprintf("MARK-a-%d", pi))
 			var in *crs.InStream
@@ -115,6 +125,7 @@ func httpMapping(r *mon.Run) {
 			admitted := ok && strings.Contains(ev.S, "ready")
 			r.Eval(1)
 			r.Count("http_pairs", 1)
+			r.Count("http_cfg:"+cfgName, 1)
 			r.Distinct("http|" + rawA + "|" + rawB + fmt.Sprint(outFirst))
 			switch {
 			case !ok:
@@ -179,6 +190,9 @@ func httpMapping(r *mon.Run) {
 		}
 	})
 	_ = url.PathEscape
+	for _, n := range httpConfigNames {
+		r.Floor("http_cfg:"+n, 20)
+	}
 	r.Floor("http_pairs", 200)
 	r.Floor("http_pairs_refused", 100)
 	r.Floor("http_second_uploads_with_declared_length", 50)
@@ -192,4 +206,40 @@ func closeAll(in *crs.InStream, out *crs.OutStream) {
 	if out != nil {
 		out.Close()
 	}
+}
+
+var httpConfigNames = []string{"default", "serve-dir", "serve-file", "callback-template", "callback-addresses", "ipv6-one-liners", "certificate-cache", "serve-dir+callback-template"}
+
+// httpConfig is the configuration of the si-th in-process server.
+func httpConfig(r *mon.Run, si int) (hk.Config, string, error) {
+	d := filepath.Join(r.Work, fmt.Sprintf("httpcfg-%d", si))
+	if err := os.MkdirAll(filepath.Join(d, "files"), 0o755); err != nil {
+		return hk.Config{}, "", err
+	}
+	for n, c := range map[string]string{"files/a.txt": "a\n", "one.txt": "one\n", "tmpl": hsrv.DefaultTemplate} {
+		if err := os.WriteFile(filepath.Join(d, n), []byte(c), 0o644); err != nil {
+			return hk.Config{}, "", err
+		}
+	}
+	var c hk.Config
+	switch si % len(httpConfigNames) {
+	case 1:
+		c.FDir = filepath.Join(d, "files")
+	case 2:
+		c.FDir = filepath.Join(d, "one.txt")
+	case 3:
+		c.TmplF = filepath.Join(d, "tmpl")
+	case 4:
+		for i := 0; i < 30; i++ {
+			c.CBAddrs = append(c.CBAddrs, fmt.Sprintf("h%d.example.org:%d", i, 4000+i))
+		}
+	case 5:
+		c.PrintIPv6 = true
+	case 6:
+		c.CertFile = filepath.Join(d, "cert.txtar")
+	case 7:
+		c.FDir = filepath.Join(d, "files")
+		c.TmplF = filepath.Join(d, "tmpl")
+	}
+	return c, httpConfigNames[si%len(httpConfigNames)], nil
 }
